@@ -139,6 +139,25 @@ func guard(rel, fnName, pattern string, nth int) (string, bool) {
 	return found[nth-1], true
 }
 
+// callPositions returns the source positions of calls whose function text is callee
+// (e.g. "c.applyAgeLimit") inside fnName.
+func callPositions(rel, fnName, callee string) []int {
+	f := load(rel)
+	fd := f.fn(fnName)
+	if fd == nil || fd.Body == nil {
+		lost = append(lost, rel+":"+fnName+" (function not found)")
+		return nil
+	}
+	var out []int
+	ast.Inspect(fd.Body, func(n ast.Node) bool {
+		if ce, ok := n.(*ast.CallExpr); ok && nows(f.src(ce.Fun)) == nows(callee) {
+			out = append(out, int(ce.Pos()))
+		}
+		return true
+	})
+	return out
+}
+
 // constInt returns the value of an integer constant declared as a basic literal or a
 // simple sum/product of literals and other constants of the same file.
 func constInt(rel, name string) (int64, bool) {
